@@ -209,6 +209,25 @@ class AArr(object):
         itp.path.conds.append(compare('<=', cnt, n))
         return AArr(self.shape, ('cmp', op, self.term, T(other)), 'bool', count=cnt)
 
+    def _boolop(self, name, other):
+        if not (isinstance(other, AArr) and self.kind == 'bool' and other.kind == 'bool' and len(self.shape) == len(other.shape)):
+            return NotImplemented
+        itp = AArr.interp
+        cnt = fresh_int('cnt', 0, None, itp)
+        n = 1
+        for d in self.shape:
+            n = n * d
+        itp.path.conds.append(compare('<=', cnt, n))
+        if name == 'and' and self.count is not None:
+            itp.path.conds.append(compare('<=', cnt, self.count))
+        return AArr(self.shape, (name, self.term, other.term), 'bool', count=cnt)
+
+    def __and__(self, other):
+        return self._boolop('and', other)
+
+    def __or__(self, other):
+        return self._boolop('or', other)
+
     # ---- indexing ------------------------------------------------------------------------
     def _axis_len(self, itp, k, n):
         """length and term of indexing one axis of length n with k"""
